@@ -181,7 +181,9 @@ IndexElsewhere(X) ==
 \* user edits an object in place (after making it writable): bytes no longer match
 Tamper(s, o) ==
     /\ Idle /\ "tamper" \in Ops
-    /\ o \in Files /\ Present(store, s, o)
+    \* (a directory object is edited so that it still parses to the same listing - trailing white space: its name no
+    \* longer matches its bytes, what it says is unchanged)
+    /\ o \in Oids /\ Present(store, s, o)
     /\ store' = [store EXCEPT ![s][o] = "bad_u"]
     /\ opened' = opened \cup {s} /\ UNCHANGED gced
     /\ act' = [op |-> "Tamper", s |-> s, o |-> o]
@@ -454,7 +456,7 @@ Next ==
     \/ \E s \in AddTargets, x \in Oids : AddObj(s, x)
     \/ \E s \in AddTargets, X \in {Y \in SUBSET Oids : Cardinality(Y) = 2} : AddMany(s, X)
     \/ \E X \in {Oids, {"d1", "f1", "f2"}} : IndexElsewhere(X)
-    \/ \E s \in Stores, o \in Files : Tamper(s, o)
+    \/ \E s \in Stores, o \in Oids : Tamper(s, o)
     \/ \E s \in Stores, o \in Oids : ExtDelete(s, o)
     \/ \E s \in Stores, o \in Oids, ro \in BOOLEAN : Check(s, o, ro)
     \/ \E s \in Stores, ids \in Requests, m \in Modes, ro \in BOOLEAN : Status(s, ids, m[1], m[2], ro)
